@@ -18,6 +18,8 @@ class Fn:
         pre, sep, rest = self.real_file.rpartition("lexpr/src/parse/")
         if sep and "/" not in rest and rest not in ("mod.rs", "read.rs", "error.rs", "iter.rs"):
             self.file = pre + sep + "read.rs"
+        if d.get("reviewed_file"):
+            self.file = d["reviewed_file"]      # moved code keeps the scope it was reviewed in (rules/rename.py)
         self.line_lo = d.get("line_lo", 0)
         self.line_hi = d.get("line_hi", 0)
         self.arg_count = d.get("arg_count", 0)
